@@ -410,10 +410,12 @@ class AioWorld(WorldBase):
     def build_config(self) -> Any:
         from hypercorn.config import Config
 
-        cfg = Config()
+        # scenario["config_object"]: an existing Config to serve with (e.g. the same object for two serve() calls);
+        # scenario["logger_base"]: a RecordingLogger subclass (e.g. one whose access() yields) to record through
+        cfg = self.scenario.get("config_object") or Config()
         world = self
 
-        class _Logger(RecordingLogger):
+        class _Logger(self.scenario.get("logger_base") or RecordingLogger):  # type: ignore[misc]
             pass
 
         _Logger.world = world
